@@ -298,6 +298,34 @@ int main(int argc, char **argv) {
         out.sample(J().s("mode", "smallstack").u("stack_kib", kib).i("maxN", maxN));
         out.finish(); return 0;
     }
+    if (args.s("mode", "") == "threads") {
+        // several threads multiply at the same time, each in its own degree with its own operands (alternating between two degrees)
+        int T = args.i("threads", 10), iters = args.i("iters", 200);
+        const int Ns[] = {8, 1024, 16, 256, 64, 512, 4, 128, 32, 2048};
+        std::atomic<uint64_t> bad{0}, calls{0}; std::atomic<int> ready{0}; std::vector<int> wit(T, 0);
+        std::vector<std::thread> th;
+        for (int t = 0; t < T; t++) th.emplace_back([&, t] {
+            Rng r(seed * 3571 + t);
+            ready++; while (ready.load() < T) sched_yield();
+            for (int it = 0; it < iters; it++) {
+                const int N = (it & 1) ? Ns[(t + 3) % 10] : Ns[t % 10]; if (N > maxN) continue;
+                TP b(N), res(N), r0(N); IP a(N);
+                for (int i = 0; i < N; i++) { a.c()[i] = (it % 3 == 0) ? r.i32() : (int32_t) r.range(-1024, 1024); b.c()[i] = r.i32(); r0.c()[i] = r.i32(); }
+                std::vector<U> prod; ref_negacyclic(prod, a.c(), b.c(), N);
+                int op = it % 3;
+                memcpy(res.c(), r0.c(), 4 * N);
+                if (op == 0) torusPolynomialMultKaratsuba(res.p, a.p, b.p); else if (op == 1) torusPolynomialAddMulRKaratsuba(res.p, a.p, b.p); else torusPolynomialSubMulRKaratsuba(res.p, a.p, b.p);
+                bool ok = true; for (int i = 0; i < N && ok; i++) { U want = op == 0 ? prod[i] : op == 1 ? (U) r0.c()[i] + prod[i] : (U) r0.c()[i] - prod[i]; ok = (U) res.c()[i] == want; }
+                calls++; if (!ok && bad++ == 0) wit[t] = N;
+            }
+        });
+        for (auto &x: th) x.join();
+        out.evaluations += calls.load();
+        if (bad.load()) for (int t = 0; t < T; t++) if (wit[t]) { out.viol("inexact:Karatsuba:when-threads-use-different-degrees", J().i("N", wit[t]).i("threads", T).u("wrong_results", bad.load())); break; }
+        char cell[96]; snprintf(cell, sizeof cell, "threads:%d-threads-each-with-its-own-degrees", T); out.cell(cell, calls.load());
+        out.sample(J().s("mode", "threads").i("threads", T).i("products_per_thread", iters));
+        out.finish(); return 0;
+    }
     if (args.s("mode", "") == "shared") {
         for (int N: {8, 16, 64, 256, 1024}) test_shared(N, args.i("threads", 4), args.i("iters", 300) / (N >= 1024 ? 4 : 1));
         out.sample(J().s("mode", "shared").i("threads", args.i("threads", 4)).s("N", "8,16,64,256,1024"));
